@@ -412,6 +412,12 @@ def _chains(tier):
         for variant in VARIANTS[kind]:
             for leaf in lv:
                 yield [[kind, variant], leaf], [cfull, lfull]
+    # single-child frame around each multi-child container in its first layout (a container that
+    # hands a zero or negative width to a child that divides by it needs two containers to show)
+    for k1 in CONTAINERS:
+        if k1 not in HEAVY:
+            for k2 in HEAVY:
+                yield [[k1, None], [k2, VARIANTS[k2][0]], ["text", "ab cd"]], [True, None, None]
     # depth 3 (thorough): container(container(leaf)); first layout only, core menus, no leaf deviations
     if tier != "quick":
         for k1 in CONTAINERS:
